@@ -387,15 +387,10 @@ class RuntimeV1_0(Runtime):
         next_steps = []
 
         if context_updates:
-            # We check if at least one key changed
-            changes = False
-            for k, v in context_updates.items():
-                if context.get(k) != v:
-                    changes = True
-                    break
-
-            if changes:
-                next_steps.append(new_event_dict("ContextUpdate", data=context_updates))
+            # We always record the update, even if the values did not change compared to
+            # the current context: the context also reflects updates from turns that were
+            # hidden in the meantime (`hide_prev_turn`), which the flows no longer see.
+            next_steps.append(new_event_dict("ContextUpdate", data=context_updates))
 
         next_steps.append(
             new_event_dict(
